@@ -313,6 +313,18 @@ def sanitise_imports(module_or_routine):
         used_symbols = OrderedSet()
         for routine in module_or_routine.subroutines:
             used_symbols |= find_and_eliminate_unused_imports(routine)
+
+        # Names used in the module's own specification part: declared variables
+        # with their kinds, shapes and initial values, and type definitions
+        spec_nodes = module_or_routine.spec.body if module_or_routine.spec is not None else ()
+        for expr in FindVariables(unique=False).visit([node for node in spec_nodes if not isinstance(node, Import)]):
+            used_symbols |= used_names_from_symbol(expr)
+        for variable in module_or_routine.variables:
+            used_symbols |= used_names_from_symbol(variable)
+        for typedef in FindNodes(TypeDef).visit(module_or_routine.spec):
+            for variable in typedef.variables:
+                used_symbols |= used_names_from_symbol(variable)
+
         eliminate_unused_imports(module_or_routine, used_symbols)
 
 
